@@ -49,15 +49,17 @@ def to_array(batch):
                     dtype=np.float64)
 
 
-def impl_features(arr, fs=None, ms=None):
-    """Run the real compute_spike_features on a copy; returns list of row dicts or the exception."""
+def impl_features(arr, fs=None, ms=None, prepared=False, nrows=None):
+    """Run the real compute_spike_features on a copy; returns list of row dicts or the exception.
+    prepared=True: hand the array over as it is (dtype, layout, rank chosen by the caller)."""
     from ibldsp import waveforms
     kw = {}
     if fs is not None:
         kw["fs"] = fs
     if ms is not None:
         kw["recovery_duration_ms"] = ms
-    a = np.array(arr, dtype=np.float64, copy=True)
+    a = arr if prepared else np.array(arr, dtype=np.float64, copy=True)
+    nrows = arr.shape[0] if nrows is None else nrows
     with warnings.catch_warnings():
         warnings.simplefilter("ignore")
         with np.errstate(all="ignore"):
@@ -66,12 +68,126 @@ def impl_features(arr, fs=None, ms=None):
             except Exception as e:      # noqa
                 return e
     missing = [c for c in COLS if c not in df.columns]
-    if missing or len(df) != arr.shape[0]:
+    if missing or len(df) != nrows:
         return RuntimeError("data frame lacks columns %s or has %d rows for %d waveforms"
-                            % (missing, len(df), arr.shape[0]))
+                            % (missing, len(df), nrows))
     cols = {c: df[c].to_numpy() for c in COLS}
     return [{c: (int(cols[c][i]) if c in IDX_COLS else float(cols[c][i])) for c in COLS}
-            for i in range(arr.shape[0])]
+            for i in range(nrows)]
+
+
+VARIANTS = ["f64"] * 8 + ["f32", "f32", "i64", "i32", "i16", "fortran", "view", "2d", "dy1", "dy3", "dy10"]
+INT_DT = {"i64": np.int64, "i32": np.int32, "i16": np.int16}
+
+
+def pick_variant(rng, batch):
+    """representation of the input array handed to the real function."""
+    v = rng.choice(VARIANTS)
+    if len(batch) == 1 and rng.random() < 0.3:
+        v = "2d"
+    has_nan = any(x is None for w in batch for row in w for x in row)
+    if v in INT_DT and has_nan:
+        v = "f32"
+    if v == "2d" and len(batch) != 1:
+        v = "view"
+    return v
+
+
+def variant_array(batch, variant):
+    """the array as the caller would hold it: dtype / memory layout / rank / dyadic scale vary."""
+    arr = to_array(batch)
+    if variant == "f32":
+        return arr.astype(np.float32)
+    if variant in INT_DT:
+        return arr.astype(INT_DT[variant])
+    if variant == "fortran":
+        return np.asfortranarray(arr)
+    if variant == "view":
+        N, T, C = arr.shape
+        big = np.full((N + 1, 2 * T + 1, 3 * C + 1), 12345.0)
+        big[1:, 1::2, 1::3] = arr
+        return big[1:, 1::2, 1::3]
+    if variant == "2d":
+        return arr[0].copy()
+    if variant.startswith("dy"):
+        return arr / float(2 ** int(variant[2:]))
+    return arr
+
+
+def variant_tol(variant):
+    return 1e-6 if variant == "f32" else 1e-9
+
+
+def impl_variant(batch, variant, fs=None, ms=None):
+    """compute_spike_features on the variant array; rows brought back to the integer scale."""
+    res = impl_features(variant_array(batch, variant), fs, ms, prepared=True, nrows=len(batch))
+    if isinstance(res, Exception) or not variant.startswith("dy"):
+        return res
+    f = float(2 ** int(variant[2:]))
+    for r in res:
+        for c in VAL_COLS + ["depolarisation_slope", "repolarisation_slope", "recovery_slope"]:
+            r[c] = r[c] * f
+    return res
+
+
+def impl_peaks(batch, variant):
+    """find_peak, pick_maxima, weights_spk_ch of the real module -> flat ints (layout of Run.v mode 1) or exception."""
+    from ibldsp import waveforms
+    if variant.startswith("dy"):
+        variant = "f64"
+    try:
+        with warnings.catch_warnings():
+            warnings.simplefilter("ignore")
+            df = waveforms.find_peak(variant_array(batch, variant))
+            im, mv = waveforms.pick_maxima(variant_array(batch, variant))
+            wt = waveforms.weights_spk_ch(variant_array(batch, "f64" if variant == "2d" else variant))
+    except Exception as e:      # noqa
+        return e
+    N, C = len(batch), len(batch[0][0])
+    if len(df) != N or im.shape != (N, C) or mv.shape != (N, C) or wt.shape != (N, C):
+        return RuntimeError("find_peak/pick_maxima/weights_spk_ch shapes %s %s %s %s" % (len(df), im.shape, mv.shape, wt.shape))
+    rows = [(int(df["peak_trace_idx"].iloc[i]), int(df["peak_time_idx"].iloc[i]), float(df["peak_val"].iloc[i]))
+            for i in range(N)]
+    return {"peaks": rows, "idx": [[int(v) for v in r] for r in im], "max": [[float(v) for v in r] for r in mv],
+            "weights": [[float(v) for v in r] for r in wt]}
+
+
+def enc_peaks(obs):
+    if isinstance(obs, Exception):
+        return [0]
+    out = [1, len(obs["peaks"])]
+    for tr, pk, v in obs["peaks"]:
+        out += [tr, pk, as_int(v)]
+    for ri, rm in zip(obs["idx"], obs["max"]):
+        for i, m in zip(ri, rm):
+            out += [i, as_int(m)]
+    for rw in obs["weights"]:
+        out += [as_int(v) for v in rw]
+    return out
+
+
+def oracle_peaks(batch, obs):
+    """find_peak = first channel / first sample of the largest |sample|; pick_maxima = per trace first
+    position and value of max |.|; weights = signed sample there."""
+    bad = []
+    for wi, w in enumerate(batch):
+        info = analyse(w)
+        T, C = info["T"], info["C"]
+        z = [[0 if v is None else v for v in row] for row in w]
+        if obs["peaks"][wi] != (info["tr"], info["pk0"], float(info["x"][info["pk0"]])):
+            bad.append("find_peak row %r is not the first global |.| extremum %r"
+                       % (obs["peaks"][wi], (info["tr"], info["pk0"], info["x"][info["pk0"]])))
+        for c in range(C):
+            col = [z[t][c] for t in range(T)]
+            m = max(abs(v) for v in col)
+            i = next(t for t in range(T) if abs(col[t]) == m)
+            if obs["idx"][wi][c] != i or obs["max"][wi][c] != m:
+                bad.append("pick_maxima (%d, %r) on trace %d, expected (%d, %d)" % (obs["idx"][wi][c], obs["max"][wi][c], c, i, m))
+            if obs["weights"][wi][c] != col[i]:
+                bad.append("weights_spk_ch %r on trace %d, expected the signed sample %d" % (obs["weights"][wi][c], c, col[i]))
+        if bad:
+            break
+    return bad
 
 
 def k_of(fs, ms):
@@ -81,10 +197,10 @@ def k_of(fs, ms):
 # --------------------------------------------------------------------------
 # flat encodings (same layout as coq/C14/Run.v)
 # --------------------------------------------------------------------------
-def enc_inp(batch, k):
+def enc_inp(batch, k, mode=0, two_d=False):
     N, T = len(batch), len(batch[0])
     C = len(batch[0][0]) if T else 0
-    return [k, N, T, C] + [NAN_CODE if v is None else int(v) for w in batch for row in w for v in row]
+    return [mode, k, -1 if two_d else N, T, C] + [NAN_CODE if v is None else int(v) for w in batch for row in w for v in row]
 
 
 def as_int(v):
@@ -94,7 +210,7 @@ def as_int(v):
     return r if r == v else BAD
 
 
-def enc_quot(q, den, fs_factor):
+def enc_quot(q, den, fs_factor, tol=1e-9):
     """impl float q is claimed to be (num/den)*fs_factor with integer num: recover num."""
     if den == 0:
         if math.isnan(q):
@@ -106,7 +222,7 @@ def enc_quot(q, den, fs_factor):
         return [BAD, den]
     x = q * den / fs_factor
     num = int(round(x))
-    if abs(x - num) > 1e-9 * max(1.0, abs(x)):
+    if abs(x - num) > tol * max(1.0, abs(x)):
         return [BAD, den]
     return [num, den]
 
@@ -120,12 +236,12 @@ def enc_int_quot(q, fs):
     return n if abs(x - n) <= 1e-9 * max(1.0, abs(x)) else BAD
 
 
-def enc_row(r, fs):
+def enc_row(r, fs, tol=1e-9):
     fs = DEFAULT_FS if fs is None else fs
     out = [r["peak_trace_idx"], r["peak_time_idx"], as_int(r["peak_val"]), as_int(r["invert_sign_peak"]),
            r["trough_time_idx"], as_int(r["trough_val"])]
     tv = as_int(r["trough_val"])
-    out += enc_quot(r["peak_to_trough_ratio"], abs(tv), 1.0)
+    out += enc_quot(r["peak_to_trough_ratio"], abs(tv), 1.0, tol)
     out += [r["tip_time_idx"], as_int(r["tip_val"]), enc_int_quot(r["peak_to_trough_duration"], fs),
             r["half_peak_post_time_idx"], r["half_peak_pre_time_idx"],
             as_int(r["half_peak_post_val"]), as_int(r["half_peak_pre_val"]),
@@ -136,12 +252,12 @@ def enc_row(r, fs):
     return out
 
 
-def enc_obs(res, fs):
+def enc_obs(res, fs, tol=1e-9):
     if isinstance(res, Exception):
         return [0]
     out = [1, len(res)]
     for r in res:
-        out += enc_row(r, fs)
+        out += enc_row(r, fs, tol)
     return out
 
 
@@ -238,7 +354,7 @@ def oracle_row(w, r, k, info):
     return bad
 
 
-def rows_equal(a, b, skip=(), scale=1.0):
+def rows_equal(a, b, skip=(), scale=1.0, tol=1e-9):
     """compare two implementation rows; value columns scaled by `scale`; quotient columns to 1e-9."""
     for c in COLS:
         if c in skip:
@@ -258,7 +374,7 @@ def rows_equal(a, b, skip=(), scale=1.0):
             elif math.isinf(u) or math.isinf(v):
                 if u * f != v:
                     return c
-            elif abs(u * f - v) > 1e-9 * max(1e-300, abs(v)):
+            elif abs(u * f - v) > tol * max(1.0 if c.endswith("_log") else 1e-300, abs(v)):
                 return c
     return None
 
@@ -374,7 +490,7 @@ def pair_wave(T, p, q, pol, frac_code):
 
 
 def gen_batches(ctx):
-    """list of (batch, fs, ms): batches of waveforms sharing (T, C)."""
+    """list of (batch, fs, ms, variant): batches of waveforms sharing (T, C)."""
     rng = ctx.rng
     out = []
     kinds = ["spike"] * 10 + ["small"] * 3 + ["plateau"] * 3 + ["ratio"] * 3 + ["first"] * 1 + ["flat"] * 1
@@ -416,7 +532,7 @@ def gen_batches(ctx):
                     for w in batch:
                         if analyse(w)["pk"] == 0:
                             out.append(([w], None, None))
-    return out
+    return [(b, fs, ms, pick_variant(rng, b)) for (b, fs, ms) in out if b]
 
 
 def whash(w):
@@ -430,14 +546,16 @@ def classify_tags(info, clause):
     return {"class": "swap" if info["swap"] else "plain", "clause": clause}
 
 
-def check_batch(ctx, batch, fs, ms, stats, do_meta=True):
+def check_batch(ctx, batch, fs, ms, stats, do_meta=True, variant="f64"):
     """returns (res, failures) where failures were already recorded in ctx."""
     k = k_of(fs, ms)
     arr = to_array(batch)
-    res = impl_features(arr, fs, ms)
+    res = impl_variant(batch, variant, fs, ms)
     N, T, C = arr.shape
     infos = [analyse(w) for w in batch]
-    desc = {"fs": fs, "ms": ms, "k": k}
+    desc = {"fs": fs, "ms": ms, "k": k, "variant": variant}
+    ltol = 1e-6 if variant == "f32" else 1e-12
+    qtol = variant_tol(variant)
     in_guard = T > k and k >= 0 and all(i["pk0"] >= 1 for i in infos)
     if isinstance(res, Exception):
         if in_guard and T >= 6:
@@ -471,7 +589,7 @@ def check_batch(ctx, batch, fs, ms, stats, do_meta=True):
             ratio = abs(np.float64(r["peak_val"]) / np.float64(r["trough_val"]))
             lg = float(np.log(ratio))
         rl = r["peak_to_trough_ratio_log"]
-        if not ((math.isnan(lg) and math.isnan(rl)) or lg == rl or abs(lg - rl) <= 1e-12 * max(1.0, abs(lg))):
+        if not ((math.isnan(lg) and math.isnan(rl)) or lg == rl or abs(lg - rl) <= ltol * max(1.0, abs(lg))):
             ctx.fail("peak_to_trough_ratio_log %r is not log|peak/trough| = %r" % (rl, lg),
                      dict(desc, batch=[w]), classify_tags(info, "ratio_log"))
     if not do_meta:
@@ -487,7 +605,7 @@ def check_batch(ctx, batch, fs, ms, stats, do_meta=True):
                 ctx.fail("waveform raises alone (%r) but not inside its batch" % (r1,), dict(desc, batch=batch),
                          {"class": "batch", "clause": "batch_independence"})
                 break
-            c = rows_equal(r1[0], r)
+            c = rows_equal(r1[0], r, tol=qtol)
             if c:
                 ctx.fail("column %s of a waveform depends on the other waveforms of the batch (%r alone, %r in batch)"
                          % (c, r1[0][c], r[c]), dict(desc, batch=batch, row=wi),
@@ -500,7 +618,7 @@ def check_batch(ctx, batch, fs, ms, stats, do_meta=True):
                      {"class": "batch", "clause": "batch_independence"})
         else:
             for wi in range(N):
-                c = rows_equal(rr[N - 1 - wi], res[wi])
+                c = rows_equal(rr[N - 1 - wi], res[wi], tol=qtol)
                 if c:
                     ctx.fail("column %s of waveform %d changes when the batch order is reversed (%r -> %r)"
                              % (c, wi, res[wi][c], rr[N - 1 - wi][c]), dict(desc, batch=batch, row=wi),
@@ -515,7 +633,7 @@ def check_batch(ctx, batch, fs, ms, stats, do_meta=True):
                  {"class": "meta", "clause": "scale"})
     else:
         for w, ra, rb, info in zip(batch, res, r2, infos):
-            c = rows_equal(ra, rb, scale=cfac)
+            c = rows_equal(ra, rb, scale=cfac, tol=qtol)
             if c:
                 ctx.fail("scaling the waveform by %r: column %s goes from %r to %r" % (cfac, c, ra[c], rb[c]),
                          dict(desc, batch=[w], scale=cfac), classify_tags(info, "scale"))
@@ -536,13 +654,30 @@ def check_batch(ctx, batch, fs, ms, stats, do_meta=True):
                 if not info["unique_channel"]:
                     continue
                 stats["perm_rows"] += 1
-                c = rows_equal(ra, rb, skip=("peak_trace_idx",))
+                c = rows_equal(ra, rb, skip=("peak_trace_idx",), tol=qtol)
                 if not c and perm[rb["peak_trace_idx"]] != ra["peak_trace_idx"]:
                     c = "peak_trace_idx"
                 if c:
                     ctx.fail("permuting channels by %s changes column %s (%r -> %r)" % (perm, c, ra[c], rb[c]),
                              dict(desc, batch=[w], perm=perm), classify_tags(info, "permutation"))
                     break
+    # NaN padding: an all-NaN channel inserted at any position only shifts the peak channel index
+    j = rng.randrange(C + 1)
+    r4 = impl_features(np.insert(arr, j, np.nan, axis=2), fs, ms)
+    stats["meta_calls"] += 1
+    if isinstance(r4, Exception):
+        ctx.fail("inserting an all-NaN channel at %d makes the call raise %r" % (j, r4), dict(desc, batch=batch, pad=j),
+                 {"class": "meta", "clause": "nan_padding"})
+    else:
+        for w, ra, rb, info in zip(batch, res, r4, infos):
+            c = rows_equal(ra, rb, skip=("peak_trace_idx",), tol=qtol)
+            want = ra["peak_trace_idx"] + (1 if ra["peak_trace_idx"] >= j else 0)
+            if not c and rb["peak_trace_idx"] != want:
+                c = "peak_trace_idx"
+            if c:
+                ctx.fail("inserting an all-NaN channel at %d changes column %s (%r -> %r)" % (j, c, ra[c], rb[c]),
+                         dict(desc, batch=[w], pad=j), classify_tags(info, "nan_padding"))
+                break
     return res
 
 
@@ -551,22 +686,36 @@ def run(ctx):
     batches = gen_batches(ctx)
     stats = {k: 0 for k in ("rows", "raised", "swap", "doubly_positive", "peak_last5", "trough_last5",
                             "recovery_fallback", "positive_peak", "channel_tie", "nan", "peak_eq_trough",
-                            "meta_calls", "perm_rows", "perm_skipped_tie", "nondefault_fs_or_ms")}
+                            "meta_calls", "perm_rows", "perm_skipped_tie", "nondefault_fs_or_ms", "peaks_calls")}
     inputs, outputs, descs = [], [], []
     nontrivial = set()
     n_waveforms = 0     # evaluations are counted per waveform (a batch call evaluates each of its rows)
     samples = []
     sizes = {"T_min": 10 ** 9, "T_max": 0, "C_min": 10 ** 9, "C_max": 0, "N_max": 0}
-    for bi, (batch, fs, ms) in enumerate(batches):
-        if not batch:
-            continue
-        res = check_batch(ctx, batch, fs, ms, stats)
+    variants = {}
+    for bi, (batch, fs, ms, variant) in enumerate(batches):
+        res = check_batch(ctx, batch, fs, ms, stats, variant=variant)
         stats["nondefault_fs_or_ms"] += (fs is not None or ms is not None)
+        variants[variant] = variants.get(variant, 0) + 1
         n_waveforms += len(batch)
         k = k_of(fs, ms)
-        inputs.append(enc_inp(batch, k))
-        outputs.append(enc_obs(res, fs))
-        descs.append({"fs": fs, "ms": ms, "k": k, "batch": batch})
+        inputs.append(enc_inp(batch, k, 0, variant == "2d"))
+        outputs.append(enc_obs(res, fs, variant_tol(variant)))
+        descs.append({"fs": fs, "ms": ms, "k": k, "variant": variant, "batch": batch})
+        if bi % 3 == 0 and len(batch[0]) >= 1 and len(batch) * len(batch[0]) * len(batch[0][0]) <= 20000:
+            # the public helpers on the same batch: find_peak, pick_maxima, weights_spk_ch
+            obs = impl_peaks(batch, variant)
+            stats["peaks_calls"] += 1
+            pdesc = {"fs": fs, "ms": ms, "k": k, "variant": variant, "batch": batch, "mode": "peaks"}
+            if isinstance(obs, Exception):
+                ctx.fail("find_peak / pick_maxima / weights_spk_ch raised %r" % (obs,), pdesc,
+                         {"class": "peaks", "clause": "totality"})
+            else:
+                for msg in oracle_peaks(batch, obs)[:1]:
+                    ctx.fail(msg, pdesc, {"class": "peaks", "clause": "peak_extremum"})
+            inputs.append(enc_inp(batch, k, 1, variant == "2d"))
+            outputs.append(enc_peaks(obs))
+            descs.append(pdesc)
         T, C = len(batch[0]), len(batch[0][0])
         sizes["T_min"], sizes["T_max"] = min(sizes["T_min"], T), max(sizes["T_max"], T)
         sizes["C_min"], sizes["C_max"] = min(sizes["C_min"], C), max(sizes["C_max"], C)
@@ -592,7 +741,7 @@ def run(ctx):
              "a scaled copy and a channel-permuted copy. non-trivial = waveform of a non-raising call with T >= 10; "
              "distinct by content hash",
         samples=samples, evaluations=n_waveforms, distinct_nontrivial=len(nontrivial),
-        extra={"input_distribution": dict(stats, **sizes), "exhaustive": False,
+        extra={"input_distribution": dict(stats, **sizes), "array_variants": variants, "exhaustive": False,
                "position_grid_T": list(range(6, 25)) if ctx.thorough() else [10, 11, 13]},
         assumptions=["float64 arithmetic on integer samples below 2^40 is exact for negation, selection and "
                      "difference; quotient columns agree with the exact quotient to 1e-9"])
@@ -603,11 +752,20 @@ def replay(ctx, data):
     if not inp or "batch" not in inp:
         print(json.dumps(data, indent=1)[:3000])
         return 1
-    batch, fs, ms = inp["batch"], inp.get("fs"), inp.get("ms")
+    batch, fs, ms, variant = inp["batch"], inp.get("fs"), inp.get("ms"), inp.get("variant", "f64")
+    if inp.get("mode") == "peaks":
+        obs = impl_peaks(batch, variant)
+        print("find_peak / pick_maxima / weights_spk_ch:", repr(obs)[:1500])
+        bad = [repr(obs)] if isinstance(obs, Exception) else oracle_peaks(batch, obs)
+        print("failing on the implementation:", bad[:3])
+        ids = common.coq_mismatches(PROP, HEADER, [common.flat_cases_term(
+            0, enc_inp(batch, k_of(fs, ms), 1, variant == "2d"), enc_peaks(obs))])
+        print("kernel-evaluated model agrees with implementation:", not ids)
+        return 1 if (bad or ids) else 0
     stats = {k: 0 for k in ("rows", "raised", "swap", "doubly_positive", "peak_last5", "trough_last5",
                             "recovery_fallback", "positive_peak", "channel_tie", "nan", "peak_eq_trough",
-                            "meta_calls", "perm_rows", "perm_skipped_tie", "nondefault_fs_or_ms")}
-    res = check_batch(ctx, batch, fs, ms, stats)
+                            "meta_calls", "perm_rows", "perm_skipped_tie", "nondefault_fs_or_ms", "peaks_calls")}
+    res = check_batch(ctx, batch, fs, ms, stats, variant=variant)
     if isinstance(res, Exception):
         print("implementation raised:", repr(res))
     else:
@@ -616,7 +774,8 @@ def replay(ctx, data):
     for f in ctx.oracle_failures[:6]:
         print("property clause failing on the implementation:", f["what"], f["tags"])
     k = k_of(fs, ms)
-    ids = common.coq_mismatches(PROP, HEADER, [common.flat_cases_term(0, enc_inp(batch, k), enc_obs(res, fs))])
+    ids = common.coq_mismatches(PROP, HEADER, [common.flat_cases_term(0, enc_inp(batch, k, 0, variant == "2d"),
+                                                                      enc_obs(res, fs, variant_tol(variant)))])
     print("kernel-evaluated model agrees with implementation:", not ids)
     known = common.load_known(PROP)
     unknown = [f for f in ctx.oracle_failures if not any(common.known_match(kf, f["tags"]) for kf in known)]
